@@ -50,6 +50,26 @@ package minersc
 //@   ensures fresh(result) || len(result) == 0
 //@   modifies nothing
 
+// The sharder side is divided among the rewarded sharders with no token lost or created:
+//   $sharderPaid   specification-only accumulator: the sum of the amounts handed to
+//                  StakePool.DistributeRewardsRandN by payShardersAndDelegates
+// Every rewarded sharder gets reward/n, the first reward%n of them one token more; together exactly
+// `reward`. (Loop invariant: paid so far + share * sharders still to pay + remainder left == reward,
+// and the remainder left never exceeds the number of sharders still to pay.)
+//@ ghost $sharderPaid Int
+//@ func (*MinerSmartContract).payShardersAndDelegates
+//@   prop C22
+//@   at-call-inlined
+//@   opaque DistributeRewardsRandN
+//@   dead-paths 4 -- DistributeCoin never fails for a positive divisor, and its remainder is below the divisor: the re-split branch is unreachable
+//@   at-call DistributeRewardsRandN ghost $sharderPaid += $arg1
+//@   ensures[sharders-get-exactly-the-amount] result == nil && len(rewardSharders) > 0 ==> $sharderPaid == old($sharderPaid) + reward
+//@   ensures[nobody-to-pay-pays-nothing] len(rewardSharders) == 0 ==> $sharderPaid == old($sharderPaid)
+//@   modifies everything
+//@   loop 1 header "for i := range rewardSharders"
+//@   loop 1 invariant ($sharderPaid - old($sharderPaid)) + (len(rewardSharders) - ($idx + 1)) * sharderShare + totalCoinLeft == reward
+//@   loop 1 invariant 0 <= totalCoinLeft && totalCoinLeft <= len(rewardSharders) - ($idx + 1)
+
 // payFees: the payment is computed only for a transaction sent by the block's generator that names
 // the block's own round; the miner side and the sharder side are paid amounts that add up exactly to
 // the block reward and to the block's fees.
